@@ -126,8 +126,12 @@ class load_value:
 
     def requires(self, const, const_parent):
         h = self.hugr
+        # the root, the container and the requested parent are nodes of the store (quantifier-free liveness facts; an input
+        # invariant: without it any new lookup of those nodes would be reported as a possible KeyError)
         return (len(self._ta_op) == len(self._ta_node) and len(h._tl_src) == len(h._tl_dst)
-                and len(self._tc_val) == len(self._tc_parent) and len(self._tc_val) == len(self._tc_node))
+                and len(self._tc_val) == len(self._tc_parent) and len(self._tc_val) == len(self._tc_node)
+                and h.root.idx >= 0 and live(h, h.root.idx) and self.parent_node.idx >= 0 and live(h, self.parent_node.idx)
+                and implies(notNone(const_parent), the(const_parent).idx >= 0 and live(h, the(const_parent).idx)))
 
     def modifies(self, const, const_parent):
         return [self._ta_op, self._ta_node, self._tc_val, self._tc_parent, self._tc_node, self.hugr._nodes, self.hugr._free_nodes, self.hugr._links.fwd, self.hugr._links.bck,
